@@ -64,6 +64,8 @@ def gen_base(rng, tier, index):
         ids = [0] + sorted(rng.sample(range(3, 3 + nids * 2), max(1, nids - 1)))   # 0 then a gap
     else:
         ids = list(range(1, nids + 1))                             # id 0 missing
+    if index % 12 == 4:
+        ids = [0, 1, 2, 3, 4, 1500, 1501, 3000]                    # a few ids with gaps of thousands between them
     writers = [[] for _ in range(nw)]
     for k, g in enumerate(ids):
         writers[k % nw].append([g, 0, rng.choice([0, 0, 0, 0.005, 0.02])])
@@ -80,7 +82,7 @@ def gen_base(rng, tier, index):
             "parent_polls": rng.random() < 0.8, "parent_writes_late": index % 3 == 0, "seed": rng.randrange(1 << 20),
             "max_reads": 250, "calls": [], "writer_reopens": index % 4 == 2, "linger": rng.choice([0, 0, 0.05, 0.15]),
             "parent_reads_before_fork": index % 4 == 3, "raw_fork_readers": (1 + index % 2) if index % 4 == 3 else 0,
-            "late_user": index % 3 == 1, "parent_iterates": index % 2 == 1, "companion_storage": index % 3 == 0,
+            "late_user": index % 3 == 1, "late_user_reads_first": index % 6 == 4, "parent_iterates": index % 2 == 1, "companion_storage": index % 3 == 0,
             "parent_stores_first": [max(ids) + 5, max(ids) + 6] if (ids and (index % 4 == 0 or index % 8 == 2)) else [],
             "parent_stores_during": [max(ids) + 8 + j for j in range(3)] if (ids and (index % 4 == 0 or index % 8 == 2)) else []}
 
